@@ -74,6 +74,9 @@ enum Op {
     Modify { t: u8, val: Val },
     /// reload with an emission of `cs` on a helper thread between unlock and cache rebuild
     ReloadRacing { t: u8, val: Val, cs: u8 },
+    /// thread `t` first reloads through a handle whose collector is gone (must fail with
+    /// is_dropped), then the history goes on
+    DeadHandleReload { t: u8 },
     /// the helper thread hits callsite `cs` for the first time; while its registration is inside a
     /// layer's register_callsite, thread `t` reloads
     ReloadWhileRegistering { t: u8, val: Val, cs: u8 },
@@ -90,6 +93,10 @@ struct Case {
     kind: Kind,
     initial: Val,
     ops: Vec<Op>,
+    /// a second, unrelated collector (accepts everything, cached `always`, no hint) is alive for
+    /// the whole history; it is nobody's default
+    #[serde(default)]
+    bystander: bool,
 }
 
 macro_rules! sites {
@@ -185,6 +192,13 @@ fn run_case(case: &Case) -> Outcome {
     };
     let handle = Arc::new(handle);
     let mut dispatch = Some(dispatch);
+    let _bystander_alive = if case.bystander { Some(Dispatch::new(Registry::default().with(RecLeaf::new(Default::default())))) } else { None };
+    // a reload handle whose collector has been dropped
+    let dead_handle = {
+        let (l, h) = reload::Subscriber::new(Some(LevelFilter::INFO));
+        drop(Dispatch::new(Registry::default().with(l)));
+        Arc::new(h)
+    };
     let mut st: Stepper<TState> = Stepper::new(2);
     for t in 0..2 {
         let d = dispatch.clone().unwrap();
@@ -242,13 +256,14 @@ fn run_case(case: &Case) -> Outcome {
     let check_max = |cur: &Val| -> Result<(), String> {
         let published = vp_rec::rank(&LevelFilter::current().into_level().unwrap_or(Level::ERROR)) * (LevelFilter::current() != LevelFilter::OFF) as u8;
         let need = match case.kind {
+            _ if case.bystander => 5, // the bystander has no hint
             Kind::PerLayer => 5, // the unfiltered neighbour wants everything
             _ => cur.max_accepted(),
         };
         if published < need {
             return Err(format!("LevelFilter::current() has rank {published} but the current value accepts level rank {need}"));
         }
-        if let (Kind::GlobalInner | Kind::GlobalOuter, Val::Level(r)) = (case.kind, cur) {
+        if let (Kind::GlobalInner | Kind::GlobalOuter, Val::Level(r), false) = (case.kind, cur, case.bystander) {
             if published != *r {
                 return Err(format!("LevelFilter::current() has rank {published}, expected exactly {r} (only one collector with a reloadable LevelFilter is live)"));
             }
@@ -300,6 +315,16 @@ fn run_case(case: &Case) -> Outcome {
                 }
                 if matches!(val, Val::Absent) {
                     classes.push("reloaded_to_none".into());
+                }
+            }
+            Op::DeadHandleReload { t } => {
+                let t = *t as usize % 2;
+                let dh = dead_handle.clone();
+                match st.run(t, move |_| dh.reload(Some(LevelFilter::DEBUG)).map_err(|e| e.is_dropped())) {
+                    Ok(Err(true)) => classes.push("reload_through_a_dead_handle_first".into()),
+                    Ok(Err(false)) => fail!(i, "reload on a dropped collector returned a different error", "not is_dropped"),
+                    Ok(Ok(())) => fail!(i, "reload succeeded although the collector is gone", "dead handle"),
+                    Err(e) => fail!(i, "panic: reload", "{e}"),
                 }
             }
             Op::ReloadRacing { t, val, cs } => {
@@ -563,13 +588,14 @@ impl Property for C12 {
             3 => (t(), val_strategy()).prop_map(|(t, val)| Op::Reload { t, val }),
             1 => (t(), val_strategy()).prop_map(|(t, val)| Op::Modify { t, val }),
             1 => (t(), val_strategy(), cs()).prop_map(|(t, val, cs)| Op::ReloadRacing { t, val, cs }),
+            1 => t().prop_map(|t| Op::DeadHandleReload { t }),
             1 => (t(), val_strategy(), cs()).prop_map(|(t, val, cs)| Op::ReloadWhileRegistering { t, val, cs }),
             1 => (t(), val_strategy(), val_strategy(), 0u8..4).prop_map(|(t, val, val2, k)| Op::ReloadDuringRebuild { t, val, val2, k }),
         ];
         let max = tier.pick(24usize, 40usize);
         let kind = prop_oneof![Just(Kind::GlobalInner), Just(Kind::GlobalOuter), Just(Kind::PerLayer)];
-        (kind, val_strategy(), proptest::collection::vec(op, 1..max), proptest::option::weighted(0.06, (t(), val_strategy(), cs())), proptest::option::weighted(0.15, val_strategy()), any::<u16>())
-            .prop_map(|(kind, initial, mut ops, held, dropv, pos)| {
+        (kind, val_strategy(), proptest::collection::vec(op, 1..max), proptest::option::weighted(0.06, (t(), val_strategy(), cs())), proptest::option::weighted(0.15, val_strategy()), any::<u16>(), proptest::bool::weighted(0.3))
+            .prop_map(|(kind, initial, mut ops, held, dropv, pos, bystander)| {
                 if let Some((t, val, cs)) = held {
                     let p = vp_engine::pick(pos, ops.len() + 1);
                     ops.insert(p, Op::ModifyHeld { t, val, cs });
@@ -577,7 +603,7 @@ impl Property for C12 {
                 if let Some(val) = dropv {
                     ops.push(Op::DropCollectorThenReload { val });
                 }
-                Case { kind, initial, ops }
+                Case { kind, initial, ops, bystander }
             })
             .boxed()
     }
@@ -591,7 +617,7 @@ impl Property for C12 {
         vec![
             "the racing clause is explored at one hook point (between releasing the write lock and rebuilding the interest cache) and by holding the write lock for 25 ms while another thread emits; other interleavings of the reload's steps are not explored".into(),
             "reload wraps filters / global filter layers (not per-layer-filtered layers: documented limitation)".into(),
-            "only the collector under test is live in the process, so LevelFilter::current() is attributable to it".into(),
+            "without a bystander only the collector under test is live in the process, so LevelFilter::current() is attributable to it; in 30 % of the cases a second collector (accepts everything, no hint) is alive as well and only `published >= needed` is asserted".into(),
         ]
     }
     fn child_timeout_s(&self) -> u64 {
